@@ -27,8 +27,6 @@ namespace {
 template <typename T>
 using hi_t = std::conditional_t<std::is_same_v<T, float>, double, long double>;
 
-enum class Rel { order, quotient };
-
 template <typename T>
 struct Binary {
     std::string subject, shortname; // subject: typed while the table is built, then moved to `call`
@@ -61,34 +59,6 @@ std::vector<Binary<T>> subjects()
         u.subject = strip_args(u.call);
     }
     return v;
-}
-
-/// class id: coarse(x) x coarse(y) x relation (only for finite non-zero pairs)
-template <typename T>
-int bin_class_id(T x, T y, Rel rel)
-{
-    int k = 0;
-    if (region_id(x) >= 5 && region_id(y) >= 5) {
-        if (rel == Rel::order) {
-            k = (x < y) ? 1 : (x > y) ? 2 : 3;
-        } else {
-            long double const q = std::fabs(static_cast<long double>(x) / static_cast<long double>(y));
-            k = (q < 1.0L) ? 1 : (q < std::ldexp(1.0L, FT<T>::mant + 1)) ? 2 : (q < 0x1p63L) ? 3 : 4;
-        }
-    }
-    return (coarse_id(x) * 7 + coarse_id(y)) * 5 + k;
-}
-inline std::string bin_class_name(int id, Rel rel)
-{
-    static char const* const ord[5] = {"", ":x<y", ":x>y", ":x==y", ""};
-    static char const* const quo[5] = {"", ":q<1", ":q<2^digits", ":q<2^63", ":q>=2^63"};
-    int const k = id % 5, c = id / 5;
-    return cat(coarse_name(c / 7), ",", coarse_name(c % 7), rel == Rel::order ? ord[k] : quo[k]);
-}
-template <typename T>
-std::string bin_class(T x, T y, Rel rel)
-{
-    return bin_class_name(bin_class_id(x, y, rel), rel);
 }
 
 template <typename T>
